@@ -438,6 +438,7 @@ func (fx *fnExec) cutLoop(lp *Loop, spec *LoopSpec) {
 		}
 		return
 	}
+	fx.loopEntryGhosts(lp, st)
 	fx.loopEntry[lp] = st.clone()
 	fx.checkInvariant(lp, st, "entry")
 	if fx.loopFrames == nil {
@@ -488,7 +489,7 @@ func (fx *fnExec) havocLoop(lp *Loop, st *State, spec *LoopSpec) {
 	// is the value at loop entry)
 	if fx.c != nil {
 		for _, g := range fx.c.Ghost {
-			if fx.loopMayCall(lp, g.Callee) {
+			if fx.loopMayCall(lp, g.Callee) || fx.loopContainsLoopHook(lp, g.Callee) {
 				st.Ghost[g.Name] = Fresh(fmt.Sprintf("L%d_ghost_%s", lp.Ordinal, g.Name), BV64)
 			}
 		}
